@@ -33,17 +33,28 @@ MANIFEST = {
     "text": "Lean 4 theorems for every stream (list of chunks) = every chunking of its concatenation, by induction over the chunk "
             "list: mean as (sum,n) pairs, padded in-place bincount addition, histogram addition for explicit edges, k-mer count "
             "sums, group-by (change points + first=last shortcut, joined across chunks) = runs of the whole data for contiguous "
-            "keys, and chunk_entries/chunk_lines = the canonical cut into pieces of exactly n (last 1..n). Refutations of the "
-            "shipped chunk_entries ([10], n=3 -> [3,7]) and chunk_lines (empty trailing chunk). The computation-graph "
-            "interpreter (per-node buffer index, pull counts) is modelled and run in lock step with the implementation. "
-            "Correspondence: all 2^(n-1) chunkings of every small sorted dataset x every computation, impl vs Lean model vs Lean "
-            "spec vs pure-Python oracle vs the implementation's own in-memory result; stream=True genome pipelines with bnp.compute.",
+            "keys, chunk_entries/chunk_lines = the canonical cut into pieces of exactly n (last 1..n); refutations of the shipped "
+            "chunk_entries ([10], n=3 -> [3,7]), chunk_lines (empty trailing chunk) and StreamNode.compute (first chunk lost). "
+            "Computation graph: an interpreter with per-node (buffer index, current buffer, pull count) state mirrors "
+            "computation_graph.py; proved for every graph in construction order (shared streams, unused nodes), for one root and "
+            "for several roots computed together: one round keeps all needed nodes at the same index, no assertion fires, each "
+            "stream is pulled once per index (graph_lockstep[_many]); get_iter yields the per-buffer values and stops cleanly; "
+            "compute() of element-wise expressions = the expression in memory on the concatenated streams for every common "
+            "cutting (graph_value[_many]); np.sum / np.mean (sum,n) / np.histogram(edges) reduction nodes, alone or joined, fold to "
+            "their in-memory value (graph_reduced_value). stream=True genome pipelines: chunks -> group-by -> iter_chromosomes "
+            "(model of the genome-order walk) -> per-chromosome pile-up / mask / sum / values under chromosome-sorted peaks, "
+            "concatenated, = the whole-genome in-memory result of C10 (per_chromosome, per_chromosome_values; uses C10.cover_local "
+            "and C10.extract_reversed). Correspondence: all 2^(n-1) chunkings of every small sorted dataset x every computation, "
+            "graphs / reductions / multi-root / pipelines, impl vs Lean model vs Lean spec vs pure-Python oracle vs the "
+            "implementation's own in-memory result.",
     "note": "mean_chunks_partial: exact integer arithmetic, float rounding is runtime (data exactly representable). histogram is "
             "claimed for explicit edges / range; NumPy's data-dependent default bins are run every check and reported as the known "
-            "finding histogram:default-bins. Graph theorems cover element-wise binary node functions with scalar constants; "
-            "reductions over graphs (np.sum / np.mean / np.histogram nodes, compute of several roots) and the stream=True genome "
-            "pipelines (per-chromosome pileup / mask / values under intervals) are corresponded, not proved.",
-    "technique": "Lean 4 proofs by induction over the chunk list + executable model run against the implementation on all chunkings of small datasets",
+            "finding histogram:default-bins. Graph node functions are the element-wise binary ufuncs with scalar constants and the "
+            "three reductions; the joining node's own buffer index is not modelled (only its own iterator advances it). In the "
+            "pipeline theorems get_pileup / slicing per chromosome are NumPy/npstructures externals at list level; stranded "
+            "extraction, merged() and means of values under intervals are corresponded only. The n = 10 group-by scope is a "
+            "seeded quarter of the 4^9 (key pattern, chunking) pairs in the thorough tier; n <= 9 is exhaustive.",
+    "technique": "Lean 4 proofs by induction over the chunk list / interpreter invariants + executable model run against the implementation on all chunkings of small datasets",
     "design": "§6 C11",
 }
 
